@@ -355,6 +355,41 @@ func (g endpointGen) run() {
 		}
 	}
 
+	// ---- proxy level: the backend encodings (which bodies count as decoded; no-op passes through) ----
+	encBodies := []struct{ body, enc string }{
+		{`{"a":1,"s":"MARKER-enc-0011"}`, "application/json"},
+		{`[1,{"b":2},"MARKER-enc-0012"]`, "application/json"},
+		{`"MARKER just a string 0013"`, "application/json"},
+		{`42`, "application/json"},
+		{`null`, "application/json"},
+		{`true`, ""},
+		{`MARKER not json 0014`, "text/plain"},
+		{``, ""},
+		{`{"a":1} trailing`, "application/json"},
+		{`{"a":`, "application/json"},
+		{`[]`, "application/json"},
+		{`{}`, "application/json"},
+	}
+	for ei, e := range []struct {
+		name string
+		coll bool
+	}{{"json", false}, {"json", true}, {"safejson", false}, {"safejson", true}, {"string", false}, {"no-op", false}, {"xml", false}, {"", false}} {
+		for mi, x := range threeModes {
+			for ci, code := range []int{200, 201, 404, 204} {
+				for bi, b := range encBodies {
+					if !cfg.Thorough() && ci >= 2 && (ei+mi+bi)%3 != 0 {
+						continue
+					}
+					rp := reply{code, b.body, b.enc}
+					be := &config.Backend{Encoding: e.name, IsCollection: e.coll, ExtraConfig: config.ExtraConfig(x)}
+					be.Decoder = encoding.GetRegister().Get(strings.ToLower(be.Encoding))(be.IsCollection)
+					p := proxy.NewHTTPProxyWithHTTPExecutor(be, executor(rp), be.Decoder)
+					g.emitProxyEnc(e.name, e.coll, x, rp, p)
+				}
+			}
+		}
+	}
+
 	// ---- endpoint level, one backend ----
 	codeStep := func(code, step, phase int) bool {
 		if cfg.Thorough() {
@@ -610,4 +645,45 @@ func (g endpointGen) emitProxyRaw(level string, x map[string]interface{}, rp rep
 	g.w.Count("level:" + level)
 	g.w.Count("mode:" + rawMode(x))
 	g.w.Add(compact(term), js, "", fmt.Sprintf("%s|%#v|%d|%s|%s|%s", level, x, rp.code, rp.body, rp.enc, method), rp.code != 200)
+}
+
+// parseValue is the independent parse of a body as a JSON value (first value of the stream, as
+// encoding/json's Decoder reads it)
+func parseValue(body string) (interface{}, bool) {
+	d := json.NewDecoder(strings.NewReader(body))
+	d.UseNumber()
+	var v interface{}
+	if err := d.Decode(&v); err != nil {
+		return nil, false
+	}
+	return v, true
+}
+
+func (g endpointGen) emitProxyEnc(enc string, coll bool, x map[string]interface{}, rp reply, p proxy.Proxy) {
+	resp, err := p(context.Background(), &proxy.Request{Method: "GET", URL: mustURL("http://h/x"), Headers: map[string][]string{}})
+	obs := "None"
+	var obsJS interface{}
+	if resp != nil {
+		n, ok := normalise(resp.Data)
+		data, _ := n.(map[string]interface{})
+		if !ok || (n != nil && data == nil) {
+			data = map[string]interface{}{"<unserialisable>": true}
+		}
+		if data == nil {
+			data = map[string]interface{}{}
+		}
+		obs = emit.Some(fmt.Sprintf("{| p_data := %s; p_complete := %s; p_status := %s |}", emit.Obj(data), emit.Bool(resp.IsComplete), emit.Z(int64(resp.Metadata.StatusCode))))
+		obsJS = map[string]interface{}{"data": data, "complete": resp.IsComplete, "status": resp.Metadata.StatusCode}
+	}
+	ec, ej := perrCoq(err, true)
+	parsed := "None"
+	if v, ok := parseValue(rp.body); ok {
+		parsed = emit.Some(emit.Json(v))
+	}
+	term := emit.App("CProxyEnc", emit.Str(enc), emit.Bool(coll), emit.Obj(orEmpty(x)), rp.coq(), parsed, emit.Pair(obs, ec))
+	js := map[string]interface{}{"level": "proxy-encoding", "encoding": enc, "is_collection": coll, "extra_config": fmt.Sprintf("%#v", x), "mode": rawMode(x),
+		"reply": rp.js(), "observed": map[string]interface{}{"resp": obsJS, "err": ej}}
+	g.w.Count("level:proxy-encoding")
+	g.w.Count("encoding:" + enc)
+	g.w.Add(compact(term), js, "", fmt.Sprintf("enc|%s|%v|%#v|%d|%s|%s", enc, coll, x, rp.code, rp.body, rp.enc), rp.code != 200)
 }
